@@ -162,7 +162,6 @@ fn file_name(kind: u8) -> OsString {
         3 => OsString::from("x"),
         4 => OsString::from_vec(vec![b'b', 0xff, 0xfe, b'.', b's', b'd']),
         5 => OsString::from("-"),
-        6 => OsString::from("--help"),
         _ => OsString::from("a.sd"),
     }
 }
